@@ -4,6 +4,9 @@
 * ``np.concatenate(seq, axis=0)`` of equally shaped 2-D arrays: the rows of the items one after the other.
 * ``sympy.physics.wigner.wigner_3j(j1,j2,j3,m1,m2,m3)`` and ``.evalf()``: the value of the 3-j symbol as an
   uninterpreted real function W3J of its six integer arguments (the numbers themselves are trusted, see NOT_DECIDED).
+* ``str * n`` for a symbolic integer n and ``+`` of such strings (``RepStr``: literal pieces with repetition counts), and
+  ``np.savetxt(path, X, fmt=RepStr)``: numpy's requirement "one % format per column" becomes a side obligation.
+* ``int(x)`` of a real scalar that is syntactically a float copy of an integer (ToReal / if-then-else of ToReal): that integer.
 * ``open(path, mode, ...)`` (installed per unit by contracts/C09.py, not globally): an opaque handle that counts the frames
   consumed from it; the only thing done with a handle is passing it to ``read_neighbors`` (callee contract) and ``close()``.
 """
@@ -53,8 +56,10 @@ def _np_concatenate(interp, seq, axis=0):
             t, r = _split_multiple(idx[0], n)
             ok = sv.and_(sv.cmp(">=", r, 0), sv.cmp("<", r, n))
             val = data.fn(t).get((r, idx[1]))
-            other = sv.Cx(sv.fresh_real("cc"), sv.fresh_real("cc")) if isinstance(norm(val), sv.Cx) else \
-                (sv.fresh_int("cc") if (isinstance(norm(val), sv.SV) and norm(val).is_int) or isinstance(norm(val), int) else sv.fresh_real("cc"))
+            # any other row index: item q, row idx - q*n with q the Euclidean quotient of the index by the item length (uninterpreted
+            # function EUCLID_QUOT with its characterising axiom 0 <= idx - q*n < n for n > 0, instantiated per application)
+            q = _euclid_quot(idx[0], n)
+            other = data.fn(q).get((A.simp(sv.sub(idx[0], sv.mul(q, n))), idx[1]))
             return sv.ite(ok, val, other)
         return A.new_arr((sv.mul(data.length, n), c), A._memo(fn), probe.dtype)
     items = [_arr(x, interp) for x in data]
@@ -82,6 +87,18 @@ def _np_concatenate(interp, seq, axis=0):
     raise EngineError("np.concatenate of arrays with symbolic lengths in a concrete list")
 
 
+EUCLID_QUOT = z3.Function("EUCLID_QUOT", z3.IntSort(), z3.IntSort(), z3.IntSort())
+
+
+def _euclid_quot(r, n):
+    """floor quotient of r by n > 0 as an uninterpreted function; ASSUMED axiom (Euclidean division): 0 <= r - q n < n"""
+    from pyvc.state import cur
+    st = cur()
+    if not any(name == "EUCLID_QUOT" for name, _ in st.array_facts):
+        st.array_facts.append(("EUCLID_QUOT", lambda a, b: z3.Implies(b > 0, z3.And(a - EUCLID_QUOT(a, b) * b >= 0, a - EUCLID_QUOT(a, b) * b < b))))
+    return sv.SV(EUCLID_QUOT(z3.simplify(sv.znum(r)), z3.simplify(sv.znum(n))))
+
+
 def _split_multiple(r, n):
     """r = t*n + rest, read syntactically off the simplified term (t = 0 if no addend is a multiple of n)"""
     rz, nz = z3.simplify(sv.znum(r)), z3.simplify(sv.znum(n))
@@ -102,6 +119,89 @@ def _split_multiple(r, n):
     return 0, sv.wrap(rz)
 
 
+class RepStr:
+    """a string built from literal pieces repeated a (possibly symbolic) number of times: parts = [(literal, count)], e.g.
+    "%d " * 2 + "%.6f " * max_neighbors  ->  [("%d %d ", 1), ("%.6f ", max_neighbors)].  Python: s * n is the empty string for n <= 0."""
+    __slots__ = ("parts",)
+
+    def __init__(self, parts):
+        self.parts = [(s_, n) for s_, n in parts if s_ != ""]
+
+    def count(self, ch):
+        """number of occurrences of the single character ch (a character cannot straddle two pieces)"""
+        tot = 0
+        for s_, n in self.parts:
+            c = s_.count(ch)
+            if c:
+                tot = sv.add(tot, sv.mul(c, sv.maxv(n, 0)))
+        return A.simp(tot)
+
+    def __repr__(self):
+        return "RepStr(" + " + ".join(f"{s_!r}*{n}" for s_, n in self.parts) + ")"
+
+
+def _str_binop(prev):
+    """ASSUMED: str * n for a symbolic integer n (n copies, none for n <= 0) and concatenation of such strings"""
+    def str_binop(interp, op, a, b):
+        a_, b_ = (a if isinstance(a, (str, RepStr)) else norm(a)), (b if isinstance(b, (str, RepStr)) else norm(b))
+        if op == "*" and isinstance(a_, str) and isinstance(b_, sv.SV) and b_.is_int:
+            return RepStr([(a_, b_)])
+        if op == "*" and isinstance(b_, str) and isinstance(a_, sv.SV) and a_.is_int:
+            return RepStr([(b_, a_)])
+        if op == "+" and (isinstance(a_, RepStr) or isinstance(b_, RepStr)) and isinstance(a_, (str, RepStr)) and isinstance(b_, (str, RepStr)):
+            pa = a_.parts if isinstance(a_, RepStr) else [(a_, 1)]
+            pb = b_.parts if isinstance(b_, RepStr) else [(b_, 1)]
+            return RepStr(list(pa) + list(pb))
+        return prev(interp, op, a, b)
+    return str_binop
+
+
+def _np_savetxt(prev):
+    """np.savetxt(path, X, fmt=<one multi-format string>, ...): numpy requires exactly one % format per column of X
+    (ValueError 'fmt has wrong number of % formats' otherwise): side obligation; the write event is the base one"""
+    def savetxt(interp, path, a, **k):
+        from pyvc.state import cur
+        fmt = k.get("fmt")
+        if isinstance(fmt, RepStr):
+            arr = _arr(a, interp)
+            ncol = arr.shape[1] if arr.ndim == 2 else 1
+            cur().require(sv.cmp("==", fmt.count("%"), ncol), "np.savetxt:one-%-format-per-column")
+        return prev.fn(interp, path, a, **k)
+    return savetxt
+
+
+def _int_valued(t):
+    """the integer term x when the real term t is ToReal(x), an integral numeral, or an if-then-else of such terms (else None)"""
+    if z3.is_int(t):
+        return t
+    if z3.is_rational_value(t):
+        return z3.IntVal(t.numerator_as_long()) if t.denominator_as_long() == 1 else None
+    if z3.is_app(t):
+        k = t.decl().kind()
+        if k == z3.Z3_OP_TO_REAL:
+            return t.arg(0)
+        if k == z3.Z3_OP_ITE:
+            a, b = _int_valued(t.arg(1)), _int_valued(t.arg(2))
+            if a is not None and b is not None:
+                return z3.If(t.arg(0), a, b)
+    return None
+
+
+def _b_int(prev):
+    """int(x) of a real scalar that is syntactically integer-valued (a float copy of integers, e.g. the coordination-number column
+    of a float table): the integer itself (exact: trunc(ToReal(k)) = k); everything else: the base contract (truncation)"""
+    def b_int(interp, v=0, *a):
+        x = norm(v)
+        if isinstance(x, A.Arr) and x.shape == ():
+            x = norm(x.get(()))
+        if isinstance(x, sv.SV) and x.is_real and not a:
+            k = _int_valued(x.t)
+            if k is not None:
+                return sv.wrap(k)
+        return prev.fn(interp, v, *a)
+    return b_int
+
+
 def open_handle(interp, path, mode="r", *a, **k):
     """ASSUMED: open() returns a handle; reading position = number of frames consumed so far (0 after opening)"""
     return new_obj(None, {"path": path, "mode": mode, "frames_read": 0,
@@ -114,6 +214,10 @@ def install_open():
 
 
 def register(lib):
+    from pyvc import lib as L
+    L.BUILTINS["int"] = LibFunc("int", _b_int(L.BUILTINS["int"]))
+    lib.str_binop = _str_binop(lib.str_binop)
+    lib.np["savetxt"] = LibFunc("np.savetxt", _np_savetxt(lib.np["savetxt"]))
     lib.np["arctan2"] = LibFunc("np.arctan2", _np_arctan2)
     if "concatenate" not in lib.np:
         lib.np["concatenate"] = LibFunc("np.concatenate", _np_concatenate)
